@@ -60,7 +60,14 @@ func startRaftNode(id uint64, nodeIds []uint64, storage wal.WAL, logger *log.Ent
 		Logger:          logger,
 	}
 
-	if len(nodeIds) > 0 {
+	// Bootstrap the group only if the log is empty. A node that restarts has to
+	// resume from its log, hard state and snapshot instead of starting over.
+	hasState, err := storageHasState(storage)
+	if err != nil {
+		return nil, err
+	}
+
+	if len(nodeIds) > 0 && !hasState {
 		var peers []etcdRaft.Peer
 		for _, nodeId := range nodeIds {
 			peers = append(peers, etcdRaft.Peer{ID: nodeId})
@@ -70,6 +77,18 @@ func startRaftNode(id uint64, nodeIds []uint64, storage wal.WAL, logger *log.Ent
 		// Allow the group to join existing cluster
 		return etcdRaft.RestartNode(raftConfig), nil
 	}
+}
+
+func storageHasState(storage wal.WAL) (bool, error) {
+	hardState, confState, err := storage.InitialState()
+	if err != nil {
+		return false, err
+	}
+	lastIndex, err := storage.LastIndex()
+	if err != nil {
+		return false, err
+	}
+	return !etcdRaft.IsEmptyHardState(hardState) || len(confState.Nodes) > 0 || lastIndex > 0, nil
 }
 
 func NewRaftGroup(id uuid.UUID, nodeIds []uint64, storage wal.WAL, transport *RaftTransport) (*RaftGroup, error) {
